@@ -73,3 +73,14 @@ Proof.
   - vm_compute. repeat constructor; cbn; intuition discriminate.
   - vm_compute. split; reflexivity.
 Qed.
+
+(** Non-vacuity of [progress_bounded]: with [c = 3] both example scripts fit (2 and 3 sync-phase
+    messages) and the adversarial scheduler ends finished; with [c = 1] neither fits and the same
+    scheduler ends in a deadlock (the boundary of the known finding). *)
+Definition ex_adversary : list label := [LPushA; LPushB; LTickA; LTickB; LDelivA; LDelivB].
+
+Example progress_example :
+  msgs (scA ex_r ex_rB ex_logs2 ex_logs2) = 2 /\ msgs (scB ex_r ex_rB ex_logs2 ex_logs2) = 3 /\
+  finished (sim 300 true (Some 3) ex_r ex_rB ex_adversary (sys0 ex_logs2 ex_logs2 8)) = true /\
+  deadlocked true (Some 1) ex_r ex_rB (sim 300 true (Some 1) ex_r ex_rB ex_adversary (sys0 ex_logs2 ex_logs2 8)) = true.
+Proof. vm_compute. repeat split. Qed.
